@@ -150,13 +150,14 @@ pub struct PointwiseStats {
     pub days_unchecked: u64,
     pub skipped_days_checked: u64,
     pub skips: u64,
+    pub skips_not_expanded: u64,
     pub max_skip: u64,
     pub skip_hist: [u64; 6],
 }
 
 impl Default for PointwiseStats {
     fn default() -> Self {
-        PointwiseStats { days_checked: 0, days_unchecked: 0, skipped_days_checked: 0, skips: 0, max_skip: 0, skip_hist: [0; 6] }
+        PointwiseStats { days_checked: 0, days_unchecked: 0, skipped_days_checked: 0, skips: 0, skips_not_expanded: 0, max_skip: 0, skip_hist: [0; 6] }
     }
 }
 
@@ -212,7 +213,22 @@ pub fn check_pointwise(oh: &Oh, ast: Option<&OpeningHoursExpression>, s: &Stream
             to_check.push(d1 - Duration::days(k));
         }
         let mut skipped_here = 0u64;
-        for (a, b) in &s.skips {
+        // at most ~40 skips are expanded per long interval (first, last, random ones): an
+        // 8000-year walk in yearly jumps would otherwise cost millions of schedule evaluations
+        let relevant: Vec<&(NaiveDate, NaiveDate)> = s.skips.iter().filter(|(a, b)| *b > d0 && *a < d1 && (*b - *a).num_days() > 1).collect();
+        let chosen: Vec<&(NaiveDate, NaiveDate)> = if relevant.len() <= 40 {
+            relevant
+        } else {
+            let mut c: Vec<&(NaiveDate, NaiveDate)> = Vec::new();
+            c.extend(relevant.iter().take(8));
+            c.extend(relevant.iter().rev().take(8));
+            for _ in 0..24 {
+                c.push(relevant[r.below(relevant.len() as u64) as usize]);
+            }
+            st.skips_not_expanded += (relevant.len() - 40) as u64;
+            c
+        };
+        for (a, b) in chosen {
             // days strictly between a and b were not evaluated by the iterator
             let lo = (*a).max(d0);
             let hi = (*b).min(d1);
